@@ -49,9 +49,10 @@ Theorem C06_attempts_bounded : forall cfg (sw : switch_rec) (n : nat) active cs,
 Proof. exact attempts_bounded. Qed.
 Print Assumptions C06_attempts_bounded.
 
-(* an approved request is not re-judged on retry *)
+(* an approved request is not re-judged: neither on retry nor when the manager that started the attempt died
+   (after the repair of C07-F1 in /repo a started request counts as approved) *)
 Theorem C06_not_rejudged : forall cfg sw active cs,
-  0 < sw_run_count sw ->
+  (0 < sw_run_count sw \/ sw_started sw = true) ->
   (is_failover sw = true \/ c_switchover_max_attempts cfg <= 0 \/ sw_run_count sw < c_switchover_max_attempts cfg) ->
   approve_switchover cfg sw active cs = None.
 Proof. exact approve_switchover_not_rejudged. Qed.
